@@ -155,6 +155,9 @@ pub fn run_shape(_id: usize, _op: &str, _args: &[Sx]) -> Sx {
 pub fn wire_shape(_id: usize, _args: &[Sx]) -> Sx {
     tag("bad-shape", vec![])
 }
+pub fn wiredec_shape(_id: usize, _args: &[Sx]) -> Sx {
+    tag("bad-shape", vec![])
+}
 pub fn set_shape(_id: usize, _xs: &Sx, _calls: &[Sx]) -> Option<(Vec<Sx>, Sx)> {
     None
 }
